@@ -17,6 +17,8 @@ import asyncio
 import contextvars
 import hashlib
 import heapq
+import inspect
+import sys
 import threading
 
 
@@ -150,11 +152,21 @@ class SimThreadPool:
             if SimPolicy.world.mt is not None:
                 return SimPolicy.world.mt.submit_worker(f, fn, a, k)
 
+        w = SimPolicy.world
+
         def run():
+            # resource fault: only `small_stack` more frames for whatever runs on this thread
+            extra = getattr(w, "small_stack", None)
+            normal = sys.getrecursionlimit()
+            if extra:
+                sys.setrecursionlimit(len(inspect.stack(0)) + extra)
             try:
                 f._r = fn(*a, **k)
             except BaseException as e:  # delivered to the caller by result()
                 f._e = e
+            finally:
+                if extra:
+                    sys.setrecursionlimit(normal)
 
         # the worker inherits the caller's contextvars (the real pool does not; func_adl uses
         # none): this is how the simulator attributes an executor start to the call behind it
